@@ -7,6 +7,8 @@ CONSTANTS
   MaxBatches = 2
   MaxOps = 3
   StaleFill = TRUE
+  FillOverwrite = FALSE
+  NoNegativeEntry = FALSE
   Gen = FALSE
 SYMMETRY Sym
 VIEW view
